@@ -120,3 +120,16 @@ fire("C20", "shortcut swallows errors", XC, "        return self.calculate(\n   
 fire("C20", "ccube: pool not closed by with", CC, "            with closing(multiprocessing.pool.ThreadPool(self.poolsize)) as pool:\n                pool.map(fill_one_cube, self.product())", "            pool = multiprocessing.pool.ThreadPool(self.poolsize)\n            pool.map(fill_one_cube, self.product())", "R-C20-c")
 silent("C20", "twin: bind the callback first", CC, "            if self.check_interrupt is not None:\n                self.check_interrupt()\n", "            check = self.check_interrupt\n            if check is not None:\n                check()\n", expect="not-violated")
 silent("C20", "twin: try/finally that re-raises", XC, "            for nested_coords in self.product:\n                fill_one_cube(nested_coords)", "            try:\n                for nested_coords in self.product:\n                    fill_one_cube(nested_coords)\n            except Exception:\n                raise")
+
+# ---------------------------------------------------------------- C09
+S = "set_operations.pyx"
+fire("C09", "intersect: guard back to 'and' (the fixed defect)", S, "if left_len == 0 or right_len == 0:", "if left_len == 0 and right_len == 0:", "R-C09-upper")
+fire("C09", "intersect: >= -> > in right exhaustion test", S, "                right_ptr += 1\n                if right_ptr >= right_len:\n                    break\n                right = right_array[right_ptr]\n            elif right > left:\n                # Left value not present in right array.\n                left_ptr += 1", "                right_ptr += 1\n                if right_ptr > right_len:\n                    break\n                right = right_array[right_ptr]\n            elif right > left:\n                # Left value not present in right array.\n                left_ptr += 1", "R-C09-upper", count=0)
+fire("C09", "union: result allocated with min()", S, "cdef int max_result_len = left_len + right_len", "cdef int max_result_len = min(left_len, right_len)", "R-C09-upper")
+fire("C09", "difference: index right_len instead of right_len - 1", S, "        if (left > right_array[right_len - 1]) or (right > left_array[left_len - 1]):\n            # The two arrays do not overlap at all, so return left.", "        if (left > right_array[right_len]) or (right > left_array[left_len - 1]):\n            # The two arrays do not overlap at all, so return left.", "R-C09-upper")
+fire("C09", "union: empty-operand returns deleted", S, "    if left_len == 0:\n        return numpy.asarray(right_array)\n    elif right_len == 0:\n        return numpy.asarray(left_array)\n", "", None)
+fire("C09", "difference: break deleted after left exhaustion", S, "                        left_ptr += 1\n                        if left_ptr >= left_len:\n                            break\n                        left = left_array[left_ptr]\n                    else:", "                        left_ptr += 1\n                        left = left_array[left_ptr]\n                    else:", "R-C09-upper")
+fire("C09", "difference: result sized by right_len", S, "    result = numpy.empty(left_len, dtype=numpy.uint32)\n    cdef uint32[:] result_view = result\n    cdef int result_len = 0\n\n    if left_len == 0:\n        pass", "    result = numpy.empty(right_len, dtype=numpy.uint32)\n    cdef uint32[:] result_view = result\n    cdef int result_len = 0\n\n    if left_len == 0:\n        pass", "R-C09-upper")
+silent("C09", "twin: bounds checking turned back on for intersect", S, "@cython.boundscheck(False)  # Deactivate bounds checking\n@cython.wraparound(False)   # Deactivate negative indexing.\ndef set_intersect_merge_np", "@cython.boundscheck(True)\n@cython.wraparound(False)   # Deactivate negative indexing.\ndef set_intersect_merge_np")
+silent("C09", "twin: union tail loops reordered", S, "        while left_ptr < left_len:\n            result_view[result_len] = left_array[left_ptr]\n            result_len += 1\n            left_ptr += 1\n        while right_ptr < right_len:\n            result_view[result_len] = right_array[right_ptr]\n            result_len += 1\n            right_ptr += 1\n", "        while right_ptr < right_len:\n            result_view[result_len] = right_array[right_ptr]\n            result_len += 1\n            right_ptr += 1\n        while left_ptr < left_len:\n            result_view[result_len] = left_array[left_ptr]\n            result_len += 1\n            left_ptr += 1\n")
+silent("C09", "twin: <, >= rewritten", S, "                if left_ptr >= left_len:\n                    break\n                if right_ptr >= right_len:\n                    break\n                left = left_array[left_ptr]\n                right = right_array[right_ptr]\n\n    return result[:result_len]\n\n\ndef intersection", "                if not left_ptr < left_len:\n                    break\n                if right_len <= right_ptr:\n                    break\n                left = left_array[left_ptr]\n                right = right_array[right_ptr]\n\n    return result[:result_len]\n\n\ndef intersection")
